@@ -12,7 +12,7 @@ use std::time::Instant;
 pub fn cases(ctx: &Ctx) -> Vec<WCase> {
     let mut out = vec![];
     let mut r = Rng::new(ctx.seed ^ 0xC18);
-    let n = ctx.n(32, 600);
+    let n = ctx.n(160, 3000);
     for i in 0..n {
         let mut rr = r.fork(i as u64);
         let mut s = Scn::base(rr.next());
